@@ -368,6 +368,14 @@ var bankMovingEffects = map[string]string{
 	"MsgServer.Transfer":                  "sender's coins are escrowed/burned",
 }
 
+// nonMovingEffects: Cosmos-side effects of precompile handlers that cannot change any bank balance
+// (confirmed by reading the same dependency versions); filled from the effects found on the reference tree.
+var nonMovingEffects = map[string]string{
+	"Keeper.SaveGrant":             "authz keeper: writes the grant and its queue entry in the authz store only",
+	"Keeper.DeleteGrant":           "authz keeper: removes the grant and its queue entry only",
+	"MsgServer.SetWithdrawAddress": "distribution: stores the delegator's withdraw address only (no coins move until a withdrawal)",
+}
+
 func effectName(ci CallInfo) string {
 	if ci.Invoke {
 		return ci.Recv + "." + ci.Name
